@@ -20,7 +20,7 @@ use crate::sched::{OrderSpec, SchedSpec};
 /// tables the input asks for" cannot excuse anything.
 const LARGE_TABLE: isize = 10_000;
 
-const FAULT_KINDS: [&str; 27] = [
+const FAULT_KINDS: [&str; 28] = [
     "truncate",
     "bit_flip",
     "significant_byte",
@@ -48,6 +48,7 @@ const FAULT_KINDS: [&str; 27] = [
     "env_output_path_is_dir",
     "env_input_path_spelling",
     "api_history",
+    "api_odd_pointer_size",
 ];
 
 fn boundary_values(rng: &mut Rng, current: Option<u128>) -> String {
@@ -611,6 +612,73 @@ fn apply_byte_fault(rng: &mut Rng, kind: &str, files: &mut [(String, Vec<u8>)]) 
     true
 }
 
+/// 150-300 tiny types, partly a long by-value chain declared in the worst order, partly
+/// pointing at each other, in one or two modules.
+fn many_small_items(rng: &mut Rng, ptr: usize) -> Project {
+    use crate::project::{Flags, Item, Module};
+    let n = rng.range(150, 300);
+    let nmod = rng.range(1, 2);
+    let mut p = Project {
+        ptr,
+        modules: (0..nmod)
+            .map(|k| Module {
+                path: vec![format!("big{k}")],
+                ..Default::default()
+            })
+            .collect(),
+        items: vec![],
+        style: rng.next_u64(),
+    };
+    let chain = rng.chance(1, 2);
+    for i in 0..n {
+        let ty = if i == 0 {
+            Ty::Prim("u8")
+        } else if chain && i % 3 == 0 {
+            Ty::Item(i - 1)
+        } else if rng.chance(1, 2) {
+            Ty::Item(rng.below(n)).cptr()
+        } else {
+            Ty::Item(rng.below(i))
+        };
+        p.items.push(Item {
+            module: rng.below(nmod),
+            name: format!("S{i}"),
+            vis: true,
+            doc: None,
+            kind: ItemKind::Type {
+                fields: vec![Field {
+                    vis: true,
+                    name: "a".into(),
+                    ty,
+                    address: None,
+                    base: false,
+                    doc: None,
+                }],
+                vftable: None,
+                size: None,
+                align: None,
+                packed: true,
+                flags: Flags::default(),
+                singleton: None,
+                impl_funcs: vec![],
+                semicolon_form: false,
+            },
+            csize: 0,
+            calign: 1,
+            vslots: None,
+        });
+    }
+    for m in 0..nmod {
+        let mut order: Vec<Decl> = (0..n)
+            .filter(|i| p.items[*i].module == m)
+            .map(Decl::Item)
+            .collect();
+        order.reverse();
+        p.modules[m].order = order;
+    }
+    p
+}
+
 /// Semantic knobs: the abstract project is bent before it is printed, so the input stays
 /// well-formed text but describes something contradictory or extreme. Returns what was done.
 fn bend_project(rng: &mut Rng, p: &mut Project) -> Vec<String> {
@@ -903,7 +971,11 @@ pub fn generate(seed: u64, tier: Tier) -> Case {
         Tier::Thorough => (24, 6),
     };
     let ptr = if rng.chance(1, 2) { 4 } else { 8 };
-    let project = if rng.chance(1, 4) {
+    let project = if rng.chance(1, 40) {
+        // Many small items in a few kilobytes: whatever the build does per item, per field or
+        // per pass must stay proportional.
+        many_small_items(&mut rng, ptr)
+    } else if rng.chance(1, 4) {
         crate::props::c10::gen_graph_project(&mut rng, tier, ptr)
     } else {
         let cfg = GenCfg::swarm(&mut rng, max_items, max_modules);
@@ -955,6 +1027,11 @@ pub fn generate(seed: u64, tier: Tier) -> Case {
                     path: format!("link{}.pyxis", rng.below(10)),
                     target: "does/not/exist.pyxis".into(),
                 });
+                true
+            }
+            "api_odd_pointer_size" => {
+                // `pointer_size` is an argument of the public entry points.
+                world.pointer_size = *rng.pick(&[0usize, 1, 2, 3, 16, 1 << 20]);
                 true
             }
             "env_symlink_loop" => {
@@ -1127,6 +1204,7 @@ pub fn evaluate(case: &Case, results: &[Vec<RunResult>], report: &mut CaseReport
             let b = parse_all(base);
             b != faulted
                 || world.input.len() != base.input.len()
+                || world.pointer_size != base.pointer_size
                 || world.out_is_file
                 || !world.pre_out.is_empty()
                 || !world.in_arg_suffix.is_empty()
@@ -1185,42 +1263,50 @@ pub fn evaluate(case: &Case, results: &[Vec<RunResult>], report: &mut CaseReport
                     ),
                 );
             }
-            // Parse errors identify file, line and column.
+            // Parse errors identify file, line and column: when the error of a build that went
+            // through `add_file` is a parse error (it says so, or it carries the parser's own
+            // message for one of the files that do not parse), it must name that file followed
+            // by the line and column the parser reports for it.
             if let Outcome::Err(e) = &r.outcome {
-                if e.contains("failed to parse ") {
-                    report.count("oracle:parse_error_position_checked", 1);
-                    // "failed to parse <path>:<line>:<col>: <syn error>"
-                    let after = &e[e.find("failed to parse ").unwrap() + "failed to parse ".len()..];
-                    let head = after.split(": ").next().unwrap_or("");
-                    let mut it = head.rsplitn(3, ':');
-                    let col = it.next().and_then(|s| s.parse::<usize>().ok());
-                    let line = it.next().and_then(|s| s.parse::<usize>().ok());
-                    let path = it.next().unwrap_or("");
-                    let file_name = std::path::Path::new(path)
-                        .file_name()
-                        .map(|f| f.to_string_lossy().into_owned())
-                        .unwrap_or_default();
-                    // Some file of that name must really fail to parse, and the position must
-                    // lie inside it.
-                    let ok = parse_failures.iter().any(|p| {
-                        let same_name = std::path::Path::new(p.as_str())
+                let through_add_file = matches!(
+                    case.builds[bi].entry,
+                    Entry::LibBuild | Entry::DriverFile { .. }
+                );
+                if through_add_file {
+                    let mut is_parse_error = e.contains("failed to parse ");
+                    let mut positioned = false;
+                    for p in &parse_failures {
+                        let file_name = std::path::Path::new(p.as_str())
                             .file_name()
-                            .map(|f| f.to_string_lossy() == file_name)
-                            .unwrap_or(false);
-                        let text_lines = world
+                            .map(|f| f.to_string_lossy().into_owned())
+                            .unwrap_or_default();
+                        let Some(text) = world
                             .module_files()
                             .iter()
                             .find(|(q, _)| q == *p)
-                            .map(|(_, b)| b.lossy().lines().count())
-                            .unwrap_or(0);
-                        same_name
-                            && matches!((line, col), (Some(l), Some(c)) if l >= 1 && l <= text_lines + 1 && c >= 1)
-                    });
-                    if !ok {
-                        return Verdict::violation(
-                            "parse-error-without-position",
-                            format!("build {bi}: {e}"),
-                        );
+                            .and_then(|(_, b)| String::from_utf8(b.0.clone()).ok())
+                        else {
+                            continue;
+                        };
+                        let Some((line, col, message)) = crate::model::parse_error_position(&text)
+                        else {
+                            continue;
+                        };
+                        if message.len() >= 12 && e.contains(&message) {
+                            is_parse_error = true;
+                        }
+                        if e.contains(&format!("{file_name}:{line}:{col}")) {
+                            positioned = true;
+                        }
+                    }
+                    if is_parse_error {
+                        report.count("oracle:parse_error_position_checked", 1);
+                        if !positioned {
+                            return Verdict::violation(
+                                "parse-error-without-position",
+                                format!("build {bi}: {e}"),
+                            );
+                        }
                     }
                 }
             }
